@@ -59,10 +59,10 @@ package dawn
 //@   ensures  pending-oneline: forall i: int :: 0 <= i && i < len(sb[l]) ==> sb[l][i] != 10
 //@   ensures  others: forall o: ref :: o != l ==> sb[o] == old(sb)[o]
 //@   modifies sb, lx, n_print, printed_len
-//@   loop 0: invariant count: w + len(b) == len(old(b)) && w >= 0
-//@   loop 0: invariant accounted: printed_len + len(sb[l]) + len(b) == old(printed_len) + len(old(sb)[l]) + len(old(b))
-//@   loop 0: invariant pending-oneline: forall i: int :: 0 <= i && i < len(sb[l]) ==> sb[l][i] != 10
-//@   loop 0: invariant others: forall o: ref :: o != l ==> sb[o] == old(sb)[o]
+//@   loop over for#1: invariant count: w + len(b) == len(old(b)) && w >= 0
+//@   loop over for#1: invariant accounted: printed_len + len(sb[l]) + len(b) == old(printed_len) + len(old(sb)[l]) + len(old(b))
+//@   loop over for#1: invariant pending-oneline: forall i: int :: 0 <= i && i < len(sb[l]) ==> sb[l][i] != 10
+//@   loop over for#1: invariant others: forall o: ref :: o != l ==> sb[o] == old(sb)[o]
 
 //@ func (*dawn.lineWriter).Flush
 //@   requires l != nil
@@ -305,10 +305,10 @@ package dawn
 //@   ensures  keeps: forall q: string :: old(has(paths, q)) ==> has(paths, q)
 //@   ensures  parent-closed: forall q: string :: (has(paths, q) && !old(has(paths, q))) ==> (has(paths, pdir(q)) || pdir(q) == proj.root || pdir(q) == q)
 //@   modifies mapof(paths)
-//@   loop 0: invariant paths != nil && proj != nil && paths == old(paths)
-//@   loop 0: invariant keeps: forall q: string :: old(has(paths, q)) ==> has(paths, q)
-//@   loop 0: invariant marked-self: p == old(p) || has(paths, old(p))
-//@   loop 0: invariant parent-closed: forall q: string :: (has(paths, q) && !old(has(paths, q))) ==> (has(paths, pdir(q)) || pdir(q) == p || pdir(q) == proj.root || pdir(q) == q)
+//@   loop over for#1: invariant paths != nil && proj != nil && paths == old(paths)
+//@   loop over for#1: invariant keeps: forall q: string :: old(has(paths, q)) ==> has(paths, q)
+//@   loop over for#1: invariant marked-self: p == old(p) || has(paths, old(p))
+//@   loop over for#1: invariant parent-closed: forall q: string :: (has(paths, q) && !old(has(paths, q))) ==> (has(paths, pdir(q)) || pdir(q) == p || pdir(q) == proj.root || pdir(q) == q)
 
 //@ func (*dawn.Project).GC$2
 //@   requires paths != nil
@@ -382,9 +382,9 @@ package dawn
 //@   ensures  !holds(m.m)
 //@   ensures  loaded-or-cycle: m.loaded || result.1 != nil
 //@   modifies heap, announced
-//@   loop 0: invariant no-module-locks: forall x: *dawn.module :: !holds(x.m)
-//@   loop 0: invariant waiter != nil && m != nil
-//@   loop 1: invariant holds(m.m) && m != nil && acq(m.loaded) == m.loaded
+//@   loop over for#1: invariant no-module-locks: forall x: *dawn.module :: !holds(x.m)
+//@   loop over for#1: invariant waiter != nil && m != nil
+//@   loop over for#2: invariant holds(m.m) && m != nil && acq(m.loaded) == m.loaded
 
 // Registry of modules: entries are only added, under proj.m, and never replaced.
 //@ struct dawn.Project
